@@ -2,6 +2,7 @@
 from __future__ import annotations
 
 import contextlib
+import copy
 
 import pyglove as pg
 
@@ -420,7 +421,91 @@ def plans(ctx):
   return [(SchemaSpace(inits), 1), (SchemaSpace(inits2), 2)]
 
 
+# ---------------------------------------------------------------------------
+# a typed child handed from one tree to another: the giver stays what it was, the receiver validates by its own rules
+# ---------------------------------------------------------------------------
+DONATIONS = [
+    # (name, giver field spec, giver content, receiver field spec, a write the giver must still refuse afterwards)
+    ('list-max', ('list', ('int', None, None), 0, 2), [1, 2], ('list', ('int', None, None), 0, None), ('append', 3)),
+    ('list-min', ('list', ('int', None, None), 1, None), [1], ('list', ('int', None, None), 0, None), ('clear',)),
+    ('list-element', ('list', ('int', 0, 2), 0, None), [1], ('list', ('int', None, None), 0, None), ('append', 7)),
+    ('list-any', ('list', ('int', None, None), 0, None), [1], ('list', ('any',), 0, None), ('append', 'a')),
+    ('dict-range', ('dict', (('a', ('int', 0, 2)),)), {'a': 1}, ('dict', (('a', ('int', None, None)),)), ('set', 'a', 7)),
+    # the receiver is stricter in something is_compatible does not look at: it must refuse (or store a conforming value)
+    ('recv-min', ('list', ('int', None, None), 0, None), [], ('list', ('int', None, None), 2, None), None),
+    ('recv-frozen', ('dict', (('a', ('int', None, None)),)), {'a': 5}, ('dict', (('a', ('frozen', ('int', None, None), 1)),)), None),
+    ('recv-frozen-elem', ('list', ('int', None, None), 0, None), [5], ('list', ('frozen', ('int', None, None), 1), 0, None), None),
+]
+
+
+def donation_item(rec, name):
+  by = {d[0]: d for d in DONATIONS}
+  _, give_d, content, recv_d, probe = by[name]
+  for host in ('dict', 'list'):
+    for how in ('setitem', 'rebind', 'construct'):
+      rec.evals += 1
+      rec.trans += 1
+      tr = dict(kind='donation', name=name, host=host, how=how)
+      giver = pg.Dict(value_spec=pg.typing.Dict([('f', S.mk(give_d))]), f=copy.deepcopy(content))
+      child = giver.sym_getattr('f')
+      before = (repr(child.value_spec), child.allow_partial, repr(view(child)), child.sym_parent is giver)
+      recv_spec = pg.typing.Dict([('f', S.mk(recv_d))]) if host == 'dict' else pg.typing.List(S.mk(recv_d))
+      try:
+        if host == 'dict':
+          if how == 'construct':
+            recv = pg.Dict(value_spec=recv_spec, f=child)
+          else:
+            recv = pg.Dict.partial(value_spec=recv_spec)
+            recv['f'] = child if how == 'setitem' else None
+            if how == 'rebind':
+              recv.rebind(f=child)
+          stored = recv.sym_getattr('f')
+        else:
+          if how == 'construct':
+            recv = pg.List([child], value_spec=recv_spec)
+          else:
+            recv = pg.List([], value_spec=recv_spec)
+            if how == 'setitem':
+              recv.append(child)
+            else:
+              recv.rebind({0: child})
+          stored = recv.sym_getattr(0)
+        out = 'ok'
+      except REJ as e:
+        out, stored = type(e).__name__, None
+      rec.stat(f'donation:{name}:{out}')
+      after = (repr(child.value_spec), child.allow_partial, repr(view(child)), child.sym_parent is giver)
+      if after != before:
+        what = [n for n, a, b in zip(('value_spec', 'allow_partial', 'content', 'parent'), before, after) if a != b]
+        rec.viol(f'giver-changed-by-handing-its-child-over/{"+".join(what)}', f'{name} ({host}, {how}, outcome {out}): the giver\'s child '
+                 f'was {before}, is now {after}', tr)
+        continue
+      if probe is not None:
+        try:
+          if probe[0] == 'append':
+            child.append(probe[1])
+          elif probe[0] == 'clear':
+            child.clear()
+          else:
+            child[probe[1]] = probe[2]
+          rec.viol('giver-accepts-a-write-its-schema-forbids', f'{name} ({host}, {how}): after handing the child over, {probe!r} on the giver\'s '
+                   f'child succeeded: {view(child)!r}', tr)
+          continue
+        except REJ:
+          pass
+      if stored is not None:
+        if stored is child:
+          rec.viol('receiver-shares-the-givers-node', f'{name} ({host}, {how}): the receiver stores the very node that is still the giver\'s child', tr)
+          continue
+        if S.acc(recv_d, view(stored)) is False:
+          rec.viol(f'stored-state-violates-schema/donation/{name}', f'{name} ({host}, {how}): the receiver stores {view(stored)!r}, which its field spec '
+                   f'{recv_d!r} rejects', tr)
+          continue
+      rec.nt(('donation', name, host, how, out))
+
+
 def run(ctx):
+  ctx.pmap(donation_item, [d[0] for d in DONATIONS], chunk=1)
   ctx.rule = ('for every spec of the grammar a pg.Dict / pg.List (three size bounds) / pg.Object carrying it as field or '
               'element spec is built (full and partial) and every write path (accessors, rebind, update, |=, +=, *=, '
               'slices, insert, delete/pop/clear, constructor, nested container mutators) is driven with the '
@@ -440,6 +525,8 @@ def run(ctx):
 
 
 def replay(rec, data):
+  if data.get('kind') == 'donation':
+    return donation_item(rec, data['name'])
   init = statespace._tup(data['init'])
   sp = SchemaSpace([init])
   statespace.replay_trace(sp, rec, dict(data, init=init))
